@@ -2763,7 +2763,9 @@ FROM (
             self._left_join_dataset(node.elseOp, e_type, e_alias, source_ids, alias_src, builder)
 
         cols: List[str] = [f"{alias_src}.{quote_name(id_)}" for id_ in source_ids]
-        for measure in output_measures:
+        # Plain attributes are selected between the operands like the measures (as in
+        # _build_dataset_if): Case.validate keeps them in the result structure.
+        for measure in list(output_measures) + list(output_ds.get_attributes_names()):
             case_parts = ["CASE"]
             for i in reversed(range(len(node.cases))):
                 then_ref = (
